@@ -382,8 +382,10 @@ int hwloc_bitmap_sscanf(struct hwloc_bitmap_s *set, const char * __hwloc_restric
 
   /* count how many substrings there are */
   count++;
-  while ((current = strchr(current+1, ',')) != NULL)
+  while ((current = strchr(current, ',')) != NULL) {
     count++;
+    current++;
+  }
 
   current = string;
   if (!strncmp("0xf...f", current, 7)) {
@@ -413,9 +415,10 @@ int hwloc_bitmap_sscanf(struct hwloc_bitmap_s *set, const char * __hwloc_restric
   }
 #endif
 
-  while (*current != '\0') {
+  while (1) {
     unsigned long val;
     char *next;
+    /* an empty (possibly last) substring is parsed as 0 so that every ulong gets stored */
     val = strtoul(current, &next, 16);
 
     assert(count > 0);
